@@ -423,9 +423,13 @@ def validate_obs(ctx, module, cfg, obs_name, obs_path, timeout=1800, chunk=40000
         res = ctx.tlc(module, cfg=cfg, cont=True, timeout=timeout)
         extra = {}
         for l in res["out"]:
-            m = re.match(r'^<<"BAD", (\d+)(?:, "?([^">]*)"?)?>>', l)
+            m = re.match(r'^<<"BAD", (\d+)(.*)>>$', l)
             if m:
-                extra[int(m.group(1))] = m.group(2) or ""
+                rest = m.group(2)
+                strs = re.findall(r'"([^"]*)"', rest)
+                if not strs and rest.strip(", "):
+                    strs = [rest.strip(", ")]
+                extra[int(m.group(1))] = strs
         if res["distinct"] != per_obs_states * len(part):
             raise MachineryError("trace validation explored %d states for %d observations:\n%s" % (
                 res["distinct"], len(part), "\n".join(res["out"][-25:])))
@@ -433,7 +437,8 @@ def validate_obs(ctx, module, cfg, obs_name, obs_path, timeout=1800, chunk=40000
             raise MachineryError("BAD lines and TLC's verdict disagree")
         for i in sorted(extra):
             o = json.loads(part[i - 1])
-            o["spec_extra"] = extra[i]
+            o["spec_extras"] = extra[i]
+            o["spec_extra"] = extra[i][0] if extra[i] else ""
             bad.append(o)
         ctx.traces += len(part)
     os.remove(os.path.join(ctx.specdir, obs_name))
